@@ -108,4 +108,52 @@ theorem shape_dcasNext_ok : SkipConc_dcasNext =
 theorem shape_itemCompare_ok : SkipConc_itemCompare =
     ["if(== || ==)", "return(_)", "if(== || ==)", "return(1)", "return(_)", "cmp"] := rfl
 
+/-- skiplist/skiplist.go `.NewWithConfig` -/
+theorem shape_SkiplistNewWithConfig_ok : SkipConc_SkiplistNewWithConfig =
+    ["if(!= && !=)", "newAccessBarrier", "if-else()", "return(_)", "allocNode", "if()", "debugMarkFree", "Free", "return(_)", "allocNode", "newNode", "newNode", "for(<=)", "++", "setNext", "setNext", "return(_)"] := rfl
+
+/-- skiplist/skiplist.go `*Skiplist.NewNode` -/
+theorem shape_NewNode_ok : SkipConc_NewNode =
+    ["return(_)", "newNode"] := rfl
+
+/-- skiplist/skiplist.go `*Skiplist.FreeNode` -/
+theorem shape_FreeNode_ok : SkipConc_FreeNode =
+    ["freeNode", "AddInt64"] := rfl
+
+/-- skiplist/skiplist.go `*Skiplist.MakeBuf` -/
+theorem shape_MakeBuf_ok : SkipConc_MakeBuf =
+    ["return(_)"] := rfl
+
+/-- skiplist/node_alloc_amd64.go `.allocNode` -/
+theorem shape_allocNode_ok : SkipConc_allocNode =
+    ["if-else(== nil)", "New", "malloc", "Size", "return(_)"] := rfl
+
+/-- skiplist/node_amd64.go `*Node.SetLink` -/
+theorem shape_SetLink_ok : SkipConc_SetLink =
+    [] := rfl
+
+/-- skiplist/node_amd64.go `*Node.GetLink` -/
+theorem shape_GetLink_ok : SkipConc_GetLink =
+    ["return(_)"] := rfl
+
+/-- skiplist/node_amd64.go `*Node.GetNext` -/
+theorem shape_NodeGetNext_ok : SkipConc_NodeGetNext =
+    ["for()", "getNext", "getNext", "return(_)"] := rfl
+
+/-- skiplist/node_amd64.go `Node.Size` -/
+theorem shape_NodeSize_ok : SkipConc_NodeSize =
+    ["return(_)"] := rfl
+
+/-- skiplist/node_amd64.go `Node.Level` -/
+theorem shape_NodeLevel_ok : SkipConc_NodeLevel =
+    ["return(_)"] := rfl
+
+/-- skiplist/stats.go `*Skiplist.GetStats` -/
+theorem shape_GetStats_ok : SkipConc_GetStats =
+    ["Apply", "return(_)"] := rfl
+
+/-- skiplist/stats.go `*Skiplist.MemoryInUse` -/
+theorem shape_SkiplistMemoryInUse_ok : SkipConc_SkiplistMemoryInUse =
+    ["return(_)", "LoadInt64"] := rfl
+
 end NitroVerif.ShapeTie.SkipConc
